@@ -127,3 +127,67 @@ def run(chk):
     if n == 0:
         chk.record('cdilog', 'gap', 'no series branch analysed', family=fam)
         chk.not_covered.append('complex dilogarithm: no series branch analysed')
+
+
+def clausen_reduction(chk):
+    """clausen_2(x) for every finite x: the range reduction never produces a domain error (log of a non-positive number) and
+    hands the kernels an argument in (0, pi]; fmod is an uninterpreted remainder with its defining property."""
+    fam = 'clausen-range-reduction'
+    chk.functions.add('gm2calc::clausen_2(double)')
+    mod = harness_module('h_cdilog')
+    kcount = [0]
+
+    def fmod_stub(ex, st, args, I):
+        x, p = zr(args[0]), zr(args[1])
+        kcount[0] += 1
+        k = z3.Int('fmod_k!%d' % kcount[0])
+        r = ex.dom.fresh('fmod_r')
+        st.add(z3.And(p > 0, x >= 0, r >= 0, r < p, k >= 0, k <= 20, x == z3.ToReal(k) * p + r))
+        return r
+    ex = executor(mod, RealDom(), extra_stubs={'fmod': fmod_stub}, fork_select=True)
+    x = z3.Real('x')
+    st = ex.start('_ZN7gm2calc9clausen_2Ed', [x])
+    st.pc += [x >= -100, x <= 100]
+    try:
+        rr = ex.explore(st)
+    except Unsupported as e:
+        chk.record('clausen:reduction', 'gap', str(e)[:100], family=fam)
+        chk.not_covered.append('clausen_2 range reduction not executed (%s)' % str(e)[:60])
+        return
+    chk.absorb_executor(ex)
+    n = 0
+    for pi, p in enumerate(rr):
+        evs = [e for e in p.events if e[0] in ('log-negative', 'log-zero', 'fdiv-by-zero', 'sqrt-negative')]
+        tag = 'clausen:reduction#%d' % pi
+        bad = evs or p.outcome[0] != 'ret' or isinstance(p.retval, float)
+        if not bad:
+            n += 1
+            continue
+        r, m = chk.solve(list(p.pc), 30000)
+        if r == 'unsat':
+            continue
+        if r != 'sat':
+            chk.record(tag, 'gap', 'feasibility of a domain-error path undecided', family=fam)
+            chk.not_covered.append('clausen_2: a domain-error path could not be decided')
+            continue
+        xv = float(m.real(x))
+        import mpmath
+        from . import C01b
+        lib = harness_native('h_cdilog')
+        import ctypes
+        f = getattr(lib, '_ZN7gm2calc9clausen_2Ed')
+        f.restype = ctypes.c_double
+        f.argtypes = [ctypes.c_double]
+        got = f(xv)
+        mpmath.mp.dps = 40
+        ref = mpmath.clsin(2, mpmath.mpf(xv))
+        chk.traces_validated += 1
+        if not (got == got) or abs(got - ref) > 1e-13 * max(abs(ref), 1e-3):
+            chk.violation(tag, 'C01:clausen_2:range-reduction', 'clausen_2(%r) = %r, Cl2 = %s: the range reduction leaves the kernel domain (%s)' % (
+                xv, got, mpmath.nstr(ref, 15), evs[0][0] if evs else p.outcome), '#!/bin/sh\ncd %s && exec python3-vt -m props.replay_ff cl2 %r\n' % (VERIF, xv))
+        else:
+            chk.record(tag, 'gap', 'domain-error path at x = %r evaluates correctly natively' % xv, family=fam)
+    chk.record('clausen:reduction', 'discharged', family=fam,
+               sample={'obligation': 'clausen_2: on each of the %d regular paths for x in [-100, 100] no logarithm of a non-positive number, no division '
+                       'by zero; every other path is infeasible' % n})
+    chk.formulas.add('clausen:reduction')
